@@ -257,6 +257,7 @@ class Proc:
         self.pid = pid
         self.sem = threading.Semaphore(0)
         self.state = None                # module-level state of the cache modules (None: pristine)
+        self.fio = {}
         self.task = None
         self.ctx = None
         self.dead = False
@@ -712,6 +713,16 @@ class World:
                 kw['path'] = self.files[f]
             if 'code' in op:
                 kw['code'] = op['code']
+            elif op.get('fio'):
+                # a client that keeps one FileIO object per file and passes it instead of the path
+                from parso.file_io import FileIO
+                key = (self.files[f], proc.incarnation)
+                fio = proc.fio.get(key)
+                if fio is None:
+                    proc.fio.clear()
+                    fio = proc.fio[key] = FileIO(self.files[f])
+                del kw['path']
+                kw['file_io'] = fio
             if mode in ('cache', 'cache+diff'):
                 kw['cache'] = True
                 c = op.get('c', 0)
